@@ -359,6 +359,18 @@ func (p *Prog) callMods(c *ssa.CallCommon, ms *ModSet, visiting map[*ssa.Functio
 		case "append":
 			ms.allocates = true
 			if st, ok := c.Args[0].Type().Underlying().(*types.Slice); ok {
+				if freshSliceValue(c.Args[0], map[ssa.Value]bool{}) {
+					// appending to a slice built by this very function (nil / make / earlier appends): only
+					// freshly allocated backing arrays are written
+					tmp := newModSet()
+					tmp.addCellsOf(st.Elem())
+					for k, v := range tmp.cells {
+						if _, hard := ms.cells[k]; !hard {
+							ms.fresh[k] = v
+						}
+					}
+					return
+				}
 				ms.addCellsOf(st.Elem())
 				ms.sites["append:"+types.TypeString(st.Elem(), func(p *types.Package) string { return p.Name() })] = append(ms.sites["append:"+types.TypeString(st.Elem(), nil)], pos)
 			}
@@ -835,4 +847,35 @@ func mapOrigin(v ssa.Value) string {
 		}
 	}
 	return "mapof:?"
+}
+
+// freshSliceValue: the slice value can only denote a backing array allocated by the enclosing function
+// (nil, make, or the result of appending to such a slice).
+func freshSliceValue(v ssa.Value, seen map[ssa.Value]bool) bool {
+	if seen[v] {
+		return true
+	}
+	seen[v] = true
+	switch x := v.(type) {
+	case *ssa.Const:
+		return x.Value == nil
+	case *ssa.MakeSlice:
+		return true
+	case *ssa.Phi:
+		for _, e := range x.Edges {
+			if !freshSliceValue(e, seen) {
+				return false
+			}
+		}
+		return true
+	case *ssa.Call:
+		if b, ok := x.Call.Value.(*ssa.Builtin); ok && b.Name() == "append" {
+			return freshSliceValue(x.Call.Args[0], seen)
+		}
+	case *ssa.Slice:
+		if _, isSl := x.X.Type().Underlying().(*types.Slice); isSl {
+			return freshSliceValue(x.X, seen)
+		}
+	}
+	return false
 }
